@@ -98,6 +98,33 @@ class Ctx:
         }
 
 
+class CaseTimeout(BaseException):
+    """Raised inside a case by the per-case wall-clock watchdog (inconclusive, never a violation)."""
+
+
+class case_timeout:
+    """``with case_timeout(sec):`` - SIGALRM based, main thread only."""
+
+    def __init__(self, sec):
+        self.sec = sec
+
+    def __enter__(self):
+        import signal
+
+        def onalarm(signum, frame):
+            raise CaseTimeout()
+
+        self._old = signal.signal(signal.SIGALRM, onalarm)
+        signal.setitimer(signal.ITIMER_REAL, self.sec)
+
+    def __exit__(self, et, ev, tb):
+        import signal
+
+        signal.setitimer(signal.ITIMER_REAL, 0)
+        signal.signal(signal.SIGALRM, self._old)
+        return False
+
+
 def load_prop(prop):
     return importlib.import_module(f"vmon.props.{prop.lower()}")
 
